@@ -109,13 +109,15 @@ void UtilContext::disasm(const char *token)
 void UtilContext::disasm(uint32_t start, uint32_t end)
 {
   uint32_t page_size, page_mask;
-  int curr_start = start;
   int valid_page_start = 1;
   int address_min,address_max;
   int curr_end;
 
   start = start * bytes_per_address;
   end = end * bytes_per_address;
+
+  // A byte address, like everything below.
+  int curr_start = start;
 
   page_size = memory.get_page_size();
   page_mask = page_size - 1;
